@@ -41,6 +41,16 @@ CHECKS = {
         note='Trusted: z3 (QF_LRA); exact arithmetic; affine maps only (accuracy on nonlinear maps is outside the claim).',
         technique=TECH + ' (QF_LRA)',
         design='3/C03'),
+    'C04': dict(
+        text='Bounded solver verdict on the real Hessian / Hessdiag code: all twelve stencil functions executed on a quadratic '
+             'with symbolic symmetric Q, symbolic x and symbolic steps h>0 are exactly Q[i,j] (resp. alpha*g*h + k*Q[i,i]*h^2 for '
+             'the Hessdiag quotients) and symmetric entry by entry; end to end Hessian(f)(x) has shape (n,n), equals Q within 1e-9 '
+             'for all coefficients, H[i,j]==H[j,i] exactly; Hessdiag orders 2,4,6 equals diag(Q) and diag(Hessian); complex-valued '
+             'quadratics with the real-step methods; n<=3 (4 thorough), six methods. Length-1-array f: concrete run of all 12 '
+             'class/method pairs (not solver evidence).',
+        note='Trusted: z3 (polynomial identities / QF_LRA); exact arithmetic; quadratics only.',
+        technique=TECH + ' (QF_NRA identities, QF_LRA)',
+        design='3/C04'),
     'C05': dict(
         text='Bounded solver verdict over all x, all positive base steps and every value of the nominal-step log(): every '
              'argument the five derivative classes pass to the user function is admissible (one-sided / mirrored / exact real '
